@@ -286,7 +286,33 @@ func editPicture(rng *rand.Rand, prev *image.NRGBA, alphaMode int) *image.NRGBA 
 		}
 		return c
 	}
-	switch rng.Intn(7) {
+	switch rng.Intn(9) {
+	case 7, 8: // a band as wide (or as high) as the canvas, anywhere, any thickness
+		c := px()
+		uniform := rng.Intn(2) == 0
+		if rng.Intn(2) == 0 {
+			y0 := rng.Intn(h)
+			y1 := y0 + 1 + rng.Intn(h-y0)
+			for y := y0; y < y1; y++ {
+				for x := 0; x < w; x++ {
+					if !uniform {
+						c = px()
+					}
+					next.SetNRGBA(x, y, c)
+				}
+			}
+		} else {
+			x0 := rng.Intn(w)
+			x1 := x0 + 1 + rng.Intn(w-x0)
+			for y := 0; y < h; y++ {
+				for x := x0; x < x1; x++ {
+					if !uniform {
+						c = px()
+					}
+					next.SetNRGBA(x, y, c)
+				}
+			}
+		}
 	case 0: // nothing
 	case 1: // one pixel
 		next.SetNRGBA(rng.Intn(w), rng.Intn(h), px())
@@ -349,10 +375,19 @@ func softDisc(rng *rand.Rand, w, h int) *image.NRGBA {
 	return p
 }
 
+func cloneNRGBAImage(p *image.NRGBA) *image.NRGBA {
+	c := image.NewNRGBA(p.Bounds())
+	copy(c.Pix, p.Pix)
+	return c
+}
+
 func randomAnimInput(rng *rand.Rand, prop string, big bool) animEncInput {
 	cw, ch := 1+rng.Intn(6), 1+rng.Intn(5)
 	if big {
 		cw, ch = 24+rng.Intn(20), 18+rng.Intn(14)
+	}
+	if rng.Intn(3) == 0 {
+		ch = cw // square canvases
 	}
 	alphaMode := rng.Intn(3)
 	if prop == "C18" {
@@ -368,9 +403,19 @@ func randomAnimInput(rng *rand.Rand, prop string, big bool) animEncInput {
 		cur = editPicture(rng, cur, alphaMode)
 		cur = editPicture(rng, cur, alphaMode)
 	}
+	var before *image.NRGBA // the picture before the last edit: "something appears, then disappears again"
 	for i := 0; i < n; i++ {
 		if i > 0 {
-			cur = editPicture(rng, cur, alphaMode)
+			if before != nil && rng.Intn(4) == 0 {
+				cur, before = before, cur
+				if rng.Intn(2) == 0 { // ... while something small changes elsewhere
+					cur = cloneNRGBAImage(cur)
+					cur.SetNRGBA(rng.Intn(cw), rng.Intn(ch), color.NRGBA{uint8(rng.Intn(256)), uint8(rng.Intn(256)), 7, 255})
+				}
+			} else {
+				before = cur
+				cur = editPicture(rng, cur, alphaMode)
+			}
 		}
 		p := cur
 		if rng.Intn(12) == 0 && cw > 1 && ch > 1 { // a frame smaller than the canvas
@@ -452,6 +497,15 @@ func checkAnimEnc(prop string, args []string) {
 		dir := vx.MustTLC(vx.TLCOpts{Module: "AnimEnc", Cfg: "GEN_AnimEncDirected.cfg", Workers: 1, Simulate: fmt.Sprintf("num=%d", run.Pick(30, 300)), Depth: 7, Seed: run.Seed + 11, Timeout: 60 * time.Minute})
 		run.AddTLC(dir)
 		dc := dir.Tagged("CASE")
+		// the same on a square 4x4 canvas (full-width bands are then as wide as the canvas is high)
+		dirSq := vx.MustTLC(vx.TLCOpts{Module: "AnimEnc", Cfg: "GEN_AnimEncDirectedSquare.cfg", Workers: 1, Simulate: fmt.Sprintf("num=%d", run.Pick(8, 120)), Depth: 7, Seed: run.Seed + 13, Timeout: 60 * time.Minute})
+		run.AddTLC(dirSq)
+		dsq := dirSq.Tagged("CASE")
+		rng.Shuffle(len(dsq), func(i, j int) { dsq[i], dsq[j] = dsq[j], dsq[i] })
+		if max := run.Pick(60, 1200); len(dsq) > max {
+			dsq = dsq[:max]
+		}
+		dc = append(dc, dsq...)
 		rng.Shuffle(len(dc), func(i, j int) { dc[i], dc[j] = dc[j], dc[i] })
 		if max := run.Pick(120, 2500); len(dc) > max {
 			dc = dc[:max]
@@ -524,6 +578,64 @@ func checkAnimEnc(prop string, args []string) {
 			}
 			in.Opts = []animation.EncodeOptions{{Quality: 75}, {Quality: 75, AllowMixed: true}, {Quality: 40, Kmax: 1}}[i%3]
 			inputs = append(inputs, in)
+		}
+	}
+	// "a band appears and disappears": on square and oblong canvases a band as wide (or as high) as the canvas, at the
+	// near edge, in the middle or at the far edge, shows for one picture over static content and is gone in the next
+	// one, with or without a small change elsewhere (the cheapest encoding disposes the band to background)
+	if run.Replay == "" {
+		for _, cv := range [][2]int{{6, 6}, {8, 8}, {8, 6}, {6, 10}} {
+			for _, horizontal := range []bool{true, false} {
+				for pos := 0; pos < 3; pos++ {
+					for _, extra := range []bool{false, true} {
+						cw, ch := cv[0], cv[1]
+						n := cw
+						if !horizontal {
+							n = ch
+						}
+						lo := []int{0, 2, 0}[pos]
+						hi := lo + 2
+						if pos == 2 {
+							if horizontal {
+								lo, hi = ch-2, ch
+							} else {
+								lo, hi = cw-2, cw
+							}
+						}
+						// static content everywhere OUTSIDE the band's place (where the band shows, the canvas is transparent
+						// before and after): half of the pixels, noisy and opaque (C18: some of them translucent)
+						base := image.NewNRGBA(image.Rect(0, 0, cw, ch))
+						for k := 0; k < cw*ch; k++ {
+							x, y := k%cw, k/cw
+							inBand := (horizontal && y >= lo && y < hi) || (!horizontal && x >= lo && x < hi)
+							if !inBand && (x+y)%2 == 0 {
+								c := color.NRGBA{uint8(rng.Intn(256)), uint8(rng.Intn(256)), uint8(rng.Intn(256)), 255}
+								if prop == "C18" && rng.Intn(3) == 0 {
+									c.A = uint8(40 + rng.Intn(200))
+								}
+								base.SetNRGBA(x, y, c)
+							}
+						}
+						band := cloneNRGBAImage(base)
+						for i := 0; i < n; i++ {
+							for j := lo; j < hi; j++ {
+								if horizontal {
+									band.SetNRGBA(i, j, color.NRGBA{250, uint8(10 * i), 20, 255})
+								} else {
+									band.SetNRGBA(j, i, color.NRGBA{250, uint8(10 * i), 20, 255})
+								}
+							}
+						}
+						last := cloneNRGBAImage(base)
+						if extra {
+							last.SetNRGBA(cw/2, ch/2, color.NRGBA{1, 2, 3, 255})
+						}
+						in := animEncInput{CW: cw, CH: ch, Origin: "band-appears-and-disappears", Pics: []*image.NRGBA{base, band, last}, Durs: []int{30, 40, 50},
+							Opts: animation.EncodeOptions{Lossless: prop == "C08", Quality: 75, LoopCount: 1}}
+						inputs = append(inputs, in)
+					}
+				}
+			}
 		}
 	}
 	// duration sums crossing 2^24 through merged identical pictures
